@@ -32,6 +32,7 @@ type MCmd struct {
 	RecSummary []string // create --summary
 	NoTags     bool     // pause --no-tags
 	Extend     bool     // pause --extend
+	Warn       bool     // run with warnings enabled (klog's default) instead of --no-warn
 	Ticks      []int    // pause: clock offsets in seconds (relative to the command's start) at the iterations of the loop
 }
 
@@ -167,7 +168,7 @@ func (c MCmd) build(file string) (cmd runner, decodeErr string) {
 		return nil, derr
 	}
 	sa := util.SummaryArgs{SummaryText: sum, Resume: c.Resume, ResumeNth: c.ResumeNth}
-	nw := util.WarnArgs{NoWarn: true}
+	nw := util.WarnArgs{NoWarn: !c.Warn}
 	switch c.Kind {
 	case "track":
 		es, derr := entrySummary(c.Entry)
@@ -235,7 +236,10 @@ func runMutating(e *core.Env, c MCmd, env MEnv, file string, viaCLI bool) MResul
 		defer util.SetVerifRepeatHooks(nil)
 	}
 	if viaCLI {
-		args := append(c.Args(), "--no-warn", file)
+		args := append(c.Args(), file)
+		if !c.Warn {
+			args = append(c.Args(), "--no-warn", file)
+		}
 		cres := obs.RunCLI(obs.CLIEnv{ConfigDir: e.Dir + "/cfg", Cpus: env.Cpus, Theme: "no_colour", ConfigFile: env.ConfigFile(), Clock: clock, OnPrint: onPrint}, args...)
 		res.Panic, res.Code, res.Out, res.ErrText = cres.Panic, cres.Code, cres.Out, cres.Err
 		res.OK = cres.Panic == nil && cres.Code == 0
